@@ -28,6 +28,7 @@ META["text"] += ' (R7, N) make_all_assertions gives every contest the assertions
 META["text"] += " R6 also decides the tally's validity condition as a table (a card is tallied iff it lists the contest and rules are not enforced or it has at most n_winners marks, whatever the choice function); R5 accepts the mean as np.mean over the filtered cards or as the filtered sum over the filtered count (same filter in numerator and denominator)."
 META["text"] += ' R6 also: the tally starts from zero at every call (the counter is created unconditionally before the first card is counted).'
 META["text"] += ' R5 also: the CVR list reaches the mean as given (set_all_margins_from_cvrs -> set_margin_from_cvrs -> Assorter.mean hand on the list itself, not a filtered copy), and the value functions involved keep no state between calls.'
+META["text"] += ' R5 also: merging repeated records builds a new vote dict (= C18.R2; placeholders share one default dict). R7 also: Contest.from_dict copies the configured entries verbatim, and the assertion factories read their options without writing into them.'
 
 
 def outer_tx(idx):
@@ -54,6 +55,8 @@ def run(chk):
     r6b_tally_validity(chk)
     r6c_tally_fresh(chk)
     r7_dispatch(chk)
+    r7_from_dict(chk)
+    r5_merge(chk)
     r_get_vote_for(chk)
 
 
@@ -334,6 +337,22 @@ def r4_margin(chk):
     chk.ob("C02.R4", where, "supermajority-margin-identity", ok_s and n_rows["supermajority"] >= 1,
            "q(p/f - 1) as computed == 2*[T_w/(2f) + (cards - valid)/2]/cards - 1 with valid = sum of the tally over the candidates",
            node=fn, rows=n_rows["supermajority"], **({"detail": {k: v for k, v in det.items() if k != "plurality"}} if not ok_s else {}))
+
+
+def r5_merge(chk):
+    # the mean is over the records as the caller has them: merging repeated records builds a new vote dict for the merged card
+    # and leaves the dicts of the records it read alone (C18.R2) -- placeholders share one default dict
+    from . import c18 as _c18
+    chk.borrow(_c18.run, {"C18.R2": "C02.R5"})
+
+
+def r7_from_dict(chk):
+    aud.from_dict_verbatim(chk, "C02.R7", REL, "Contest", "the candidates the losers are derived from are the ones configured")
+    # the factories build their test from the options handed in and leave those options alone (a `setdefault` into a shared
+    # default dict configures every later contest)
+    aud.keeps_no_state(chk, "C02.R7", REL, ["Assertion.make_plurality_assertions", "Assertion.make_supermajority_assertion",
+                                            "Assertion.make_assertions_from_json", "Assertion.make_all_assertions"],
+                       "an assertion factory reads its options")
 
 
 def r5_mean(chk):
